@@ -85,22 +85,22 @@ def gen_case(rng, tier):
 
 def q_cond(K):
     if K is None:
-        return "(@mkC Qc [] [] [] [] [])"
-    return (f"(@mkC Qc {lib.qcmat(K['A'])} {lib.qcmat(K['b'])} {lib.qcmat(gram(K['L']))} "
+        return "(mkCq [] [] [] [] [])"
+    return (f"(mkCq {lib.qcmat(K['A'])} {lib.qcmat(K['b'])} {lib.qcmat(gram(K['L']))} "
             f"{lib.qclist(K['tl'])} {lib.qclist(K['to'])})")
 
 
 def q_normal(rv):
     if rv is None:
-        return "(@mkN Qc [] [])"
-    return f"(@mkN Qc {lib.qcmat(rv['m'])} {lib.qcmat(gram(rv['L']))})"
+        return "(mkNq [] [])"
+    return f"(mkNq {lib.qcmat(rv['m'])} {lib.qcmat(gram(rv['L']))})"
 
 
 def coq_terms(case):
     ts = []
     for b in case["blocks"]:
         x = lib.qcmat(b["x"]) if b.get("x") is not None else "[]"
-        ts.append(f"c08_run {case['op']}%nat {case['nin']}%nat {case['nmid']}%nat {case['nout']}%nat {case['c']}%nat "
+        ts.append(f"c08_run {lib.coq_nat(case['op'])} {lib.coq_nat(case['nin'])} {lib.coq_nat(case['nmid'])} {lib.coq_nat(case['nout'])} {lib.coq_nat(case['c'])} "
                   f"{q_cond(b.get('K1'))} {q_cond(b.get('K2'))} {q_normal(b.get('rv'))} {x}")
     return ts
 
@@ -145,16 +145,17 @@ def signature(case, where):
 def main():
     ck = lib.Check("C08")
     pr = ck.run_proof()
-    n = 240 if ck.tier == "quick" else 3000
+    n = 400 if ck.tier == "quick" else 6000
     cases = [gen_case(ck.rng, ck.tier) for _ in range(n)]
-    terms, owner = [], []
+    emitters, owner = [], []
     for i, c in enumerate(cases):
-        for t in coq_terms(c):
-            terms.append(t)
+        for b in range(len(c["blocks"])):
+            emitters.append(lambda c=c, b=b: coq_terms(c)[b])
             owner.append(i)
     mres_flat = None
     try:
-        mres_flat = lib.coq_eval("C08", HEADER, terms, shard=60)
+        mres_flat, xinfo = lib.dual_eval("C08", HEADER, emitters, sample=3, shard=100)
+        ck.hist["ocaml_vs_coq_crosscheck"] = xinfo
     except RuntimeError as e:
         ck.notes.append(f"model evaluation failed: {str(e)[:800]}")
     ires = lib.run_impl("c08_impl.py", {"cases": [floatable(c) for c in cases]}, timeout=3000)["results"]
